@@ -112,6 +112,10 @@ struct State {
     signal: Option<Sender<Signal>>,
     log_events: bool,
     last_event: std::time::Instant,
+    dropped: bool,
+    /// set when the coordinator polled with nothing in flight, nothing pending and done == total:
+    /// it is about to leave its loop, `run_end` must follow
+    final_poll: Option<std::time::Instant>,
 }
 
 pub struct Ctl {
@@ -177,6 +181,8 @@ impl Ctl {
                 signal: None,
                 log_events: true,
                 last_event: std::time::Instant::now(),
+                dropped: false,
+                final_poll: None,
             }),
             cv: Condvar::new(),
         })
@@ -209,6 +215,8 @@ impl Ctl {
         s.signal = Some(signal);
         s.log_events = log_events;
         s.last_event = std::time::Instant::now();
+        s.dropped = false;
+        s.final_poll = None;
     }
 
     /// Collect what the run produced
@@ -238,8 +246,20 @@ impl Ctl {
     /// workers are blocked in `send` while `Drop` joins the pool: the run can never return.
     pub fn stuck_in_send(&self, quiet: std::time::Duration) -> bool {
         let s = lock(&self.st);
-        if !s.run_ended || Self::in_flight(&s) == 0 || s.last_event.elapsed() < quiet {
+        if !s.run_ended {
+            // the coordinator saw "everything done" at its last poll and must now leave the loop,
+            // run the post-loop checks and return; nothing else is alive. If `run_end` does not
+            // follow within `quiet`, it is spinning after the loop (e.g. while formatting an error)
+            return matches!(s.final_poll, Some(t) if t.elapsed() >= quiet) && Self::in_flight(&s) == 0;
+        }
+        if s.dropped || s.last_event.elapsed() < quiet {
             return false;
+        }
+        if Self::in_flight(&s) == 0 {
+            // every task ended, the coordinator is alone in `Drop` (join returns at once, the drain
+            // loop polls every 100 ms): if it has not finished after `quiet`, nothing can ever
+            // change the counters it is waiting for
+            return true;
         }
         let mut sending = 0;
         for t in &s.tasks {
@@ -430,11 +450,13 @@ impl Controller for Ctl {
         if COORD_EPOCH.with(|c| c.get()) != s.epoch {
             return;
         }
+        s.dropped = true;
         Self::ev(&mut s, Event::Dropped);
     }
 
     fn task_spawned(&self, kind: TaskKind, path: &Path) -> u64 {
         let mut s = lock(&self.st);
+        s.final_poll = None;
         let id = (s.epoch << 32) | s.tasks.len() as u64;
         let occ = s.tasks.iter().filter(|t| t.kind == kind && t.path == path).count() as u32;
         s.tasks.push(TaskInfo { kind, path: path.to_path_buf(), occ, phase: Phase::Queued, release_begin: false, release_end: false });
@@ -555,6 +577,7 @@ impl Controller for Ctl {
             return;
         }
         let epoch = s.epoch;
+        s.final_poll = if Self::in_flight(&s) == 0 && Self::pending(&s) == 0 && done == total { Some(std::time::Instant::now()) } else { None };
         // compress runs of identical polls
         if !matches!(s.events.last(), Some(Event::Poll { done: d, total: t }) if *d == done && *t == total) {
             Self::ev(&mut s, Event::Poll { done, total });
